@@ -612,7 +612,7 @@ def call_ext(interp, ext, node, args, kwargs, st):
             if name in ("array", "asarray", "copy", "asanyarray", "abs", "absolute", "negative"):
                 src_o = a0.elem if (a0.elem is not None and a0.kind in ("list", "gen")) else a0
                 tags = tags | frozenset(t_ for t_ in src_o.tags if isinstance(t_, tuple) and t_[0] == "order")
-            if name in ("array", "asarray", "asanyarray", "atleast_1d", "atleast_2d", "atleast_3d") and "dtype" not in kwargs and len(args) < 2:
+            if name in ("array", "asarray", "asanyarray") and "dtype" not in kwargs and len(args) < 2:
                 # the dtype is the caller's: integers stay an integer array (in-place float arithmetic then raises)
                 els = list(a0.items) if (a0.kind in ("list", "tuple") and a0.items is not None) else [a0]
                 if els and all(("raw-param" in e.tags) or (e.is_number_const() and isinstance(e.const, int)) for e in els) \
